@@ -6,6 +6,7 @@
    on fetch_add; [s_total] = initial + everything added. *)
 From AL Require Import Base Api Semaphore SemApi SemCount.
 From AL.Tie Require Tie_Semaphore.
+From AL.Sched Require SemSched.
 
 Theorem C03_conserve : forall (n : N) (ops : list sop),
   s_total (srun n ops) < USZ ->
@@ -46,6 +47,19 @@ Proof. exact only_add_changes_total. Qed.
 
 (* non-vacuity: a contended history (two permits, three acquirers, a forget, an
    add_permits, a cancellation) satisfies the hypothesis and has outstanding permits *)
+(* ---- schedule half: every interleaving of the atomic operations on the counter (compare_exchange(c, c-1)
+   with ANY expected value, however stale; fetch_add), ANY number of threads: permits are conserved, hence
+   never over-issued ---- *)
+Theorem C03_conserve_sched : forall (init : N) (n : nat) (sched : list (nat * SemSched.saction)),
+  let g := SemSched.srun init n sched in
+  SemSched.sg_count g + SemSched.sumN (SemSched.sg_held g) + SemSched.sg_forgot g = SemSched.sg_total g.
+Proof. exact SemSched.srun_Cons. Qed.
+
+Example C03_sched_nonvacuous :
+  let g := SemSched.srun 1 2 [(0, SemSched.SCas 1); (1, SemSched.SCas 1); (1, SemSched.SCas 0); (0, SemSched.SRelease); (1, SemSched.SCas 1); (0, SemSched.SAdd 2)]%nat in
+  SemSched.sg_held g = [0; 1] /\ SemSched.sg_count g = 2.
+Proof. vm_compute. split; reflexivity. Qed.
+
 Example C03_nonvacuous :
   let x := srun 2 [SAcquire false; SAcquire true; SAcquire false; SPoll 0 0; SPoll 1 0; SPoll 2 0;
                    SForget 0; SAdd 1; SPoll 2 0; SDropFut 1; STry false] in
@@ -53,6 +67,7 @@ Example C03_nonvacuous :
 Proof. vm_compute. repeat split; reflexivity. Qed.
 
 Print Assumptions C03_conserve.
+Print Assumptions C03_conserve_sched.
 Print Assumptions C03_never_over_issues.
 Print Assumptions C03_try_exact.
 Print Assumptions C03_drop_returns_one.
